@@ -469,3 +469,7 @@ Proof.
   intros c I. rewrite forallb_forall in H. pose proof (H c I) as K. pose proof (table_cap_ge t c I).
   destruct (cfg_okb_spec lf c K) as (B1 & B2 & B3 & B4). repeat split; auto; simpl; lia.
 Qed.
+
+Lemma expo_saturates : forall base cap n, 1 <= base -> cap < 2 ^ 62 -> 0 <= n ->
+  expo base cap n = expo base cap (Z.min n 62) /\ (62 <= n -> expo base cap n = cap).
+Proof. intros. split; [apply expo_min62|intros; apply expo_sat62]; auto. Qed.
